@@ -25,6 +25,7 @@ fn main() {
             input["canonfree"].as_bool().unwrap_or(false),
         ),
         Some("carrier") => observe_carrier(&input["c"]),
+        Some("rcarrier") => observe_rel_carrier(&input["c"]),
         Some("cpair") => observe_carrier_pair(&input["a"], &input["b"]),
         Some("crdata") => observe_carried_rdata(
             &bytes_of(&input["a"]),
